@@ -75,8 +75,11 @@ def setup(ctx):
 def set_fs(rng):
     fs = float(rng.choice([1e9, 1.6e10, 8e10, 1e12]))
     with core.quiet():
-        T.gv(sps=int(rng.choice([4, 8, 16])), fs=fs)
-    return fs
+        if rng.integers(4) == 0:      # a sampling rate that is not an integer multiple of the slot rate: everything follows gv.fs, not sps*R
+            T.gv(R=fs / float(rng.choice([2.5, 3.3, 7.6])), fs=fs)
+        else:
+            T.gv(sps=int(rng.choice([4, 8, 16])), fs=fs)
+    return float(T.gv.fs)
 
 
 def make_field(rng, n, n_pol, noise, amp):
@@ -148,6 +151,10 @@ def w_deterministic(ctx, rng, i):
         ao2 = D.PD(x, BW, p["r"], float(rng.uniform(0, 400)), p["R_load"], "ase-only", p["i_dark"], float(rng.uniform(0, 10)))
         ctx.check("twin.ase_only", np.array_equal(ao2.noise, ao.noise) and np.array_equal(ao2.signal, ao.signal), "'ase-only' output depends on T / Fn although no thermal term is selected")
         ctx.check("twin.ase_only_no_draw", _same_state(np.random.get_state(), st), "'ase-only' consumed random numbers (thermal/shot must not be drawn)")
+        # T = 0 K (given as float or int): the thermal variance 4 kB T Fn B / R_load is exactly zero, so 'ase-thermal' carries the same noise as 'ase-only'
+        np.random.set_state(st)
+        at0 = D.PD(x, BW, p["r"], [0.0, 0][int(rng.integers(2))], p["R_load"], "ase-thermal", p["i_dark"], p["Fn"])
+        ctx.check("twin.thermal_T0", relerr(at0.noise, want, floor=p["R_load"] * p["i_dark"]) <= 1e-9, "'ase-thermal' at T = 0 K differs from the beating terms + dark offset: thermal noise was added at zero temperature")
     ctx.check("input_unchanged", core.digest(x.signal, x.noise) == d0, "PD modified its input")
     ctx.case(("det", n_pol, noise, sel, n, fs, round(np.log10(p["R_load"])), p["T"] == 0, p["i_dark"] == 0), nontrivial=n >= 32,
              sample=dict(n=n, n_pol=n_pol, noise=noise, sel=sel, fs=fs, BW_over_fs=BW / fs, **p) if i < 4 else None)
